@@ -152,7 +152,7 @@ esl_buffer_Open(const char *filename, const char *envvar, ESL_BUFFER **ret_bf)
   }
 
   n = strlen(path);
-  if (n > 3 && strcmp(filename+n-3, ".gz") == 0)   /* if .gz => gzip -dc */
+  if (n > 3 && strcmp(path+n-3, ".gz") == 0)       /* if .gz => gzip -dc. (n is the length of <path>, which is <dir>/<filename> when found via <envvar>) */
     { if ( (status = esl_buffer_OpenPipe(path, "gzip -dc %s 2>/dev/null", ret_bf)) != eslOK) goto ERROR; }
   else
     { if ( (status = esl_buffer_OpenFile(path, ret_bf)) != eslOK) goto ERROR; }
